@@ -2,7 +2,7 @@
 import re
 
 from ..core.util import new_scratch, rmtree
-from ..pipe import gen, hist, twin
+from ..pipe import gen, ir, hist, twin
 from ..pipe.cone import Cones
 from ..pipe.world import World
 from . import c01
@@ -40,6 +40,7 @@ def _feat(cfg, avoid=()):
     f["p_load_never"] = 0.0
     f["rt_args"] = cfg.random() < 0.7
     f["share"] = cfg.choice([0.3, 0.6])
+    f["phelpers"] = cfg.random() < 0.5
     return f
 
 
@@ -57,6 +58,8 @@ def gen_case(streams, tier, avoid):
     prof["avoid"] = avoid
     case = hist.gen_history(streams, tier, prof)
     f = streams.get("faults")
+    if f.random() < 0.25:
+        _add_chain(case, f)
     for op in case["ops"]:
         if op["op"] == "eval" and f.random() < 0.6:
             op["style"] = "eval"
@@ -64,6 +67,41 @@ def gen_case(streams, tier, avoid):
             if f.random() < 0.3:
                 op["opts"]["dds_extra_debug"] = True
     return case
+
+
+def _add_chain(case, rng):
+    """An entry point whose body reaches a shared kept node, then a chain of keeps that each take the previous result
+    as a run-time argument, then a helper called with the last result that reaches the shared node again."""
+    prog = case["prog"]
+    used = set(gen.all_paths(prog))
+    free = [p for p in gen.PATH_POOL if p not in used]
+    n = rng.choice([2, 2, 3])
+    if len(free) < n + 1 or "f90" in prog["funcs"]:
+        return
+    mod = prog["mods"][-1]
+
+    def fn(name, kind, params=(), path=None):
+        g = {"mod": mod, "kind": kind, "params": [list(p) for p in params], "ver": 1, "ret": "tuple", "pad": 0, "body": [],
+             "comment": 0, "end": False}
+        if path:
+            g["path"] = path
+        prog["funcs"][name] = g
+        prog["order"].append(name)
+        return g
+
+    fn("f90", "data", path=free[0])
+    for k in range(n):
+        fn(f"f9{k + 1}", "target", params=[["a0", ir.NODEFAULT]])
+    h = fn("f95", "plain", params=[["x", ir.NODEFAULT]])
+    h["phelper"] = True
+    h["body"].append({"t": "call", "f": "f90", "form": "direct"})
+    e = fn("f96", "plain")
+    e["body"].append({"t": "call", "f": "f90", "form": "direct"})
+    for k in range(n):
+        e["body"].append({"t": "keep", "path": free[k + 1], "f": f"f9{k + 1}", "args": [{"k": "rt", "e": f"r{k}"}]})
+    e["body"].append({"t": "call", "f": "f95", "form": "direct", "rtarg": f"r{n}"})
+    at = rng.randrange(len(case["ops"]) + 1)
+    case["ops"].insert(at, {"op": "eval", "entry": "f96", "style": "eval", "opts": {"dds_export_graph": "dot"}})
 
 
 NODE_RE = re.compile(r'^\s*"?(/[^"\s\[;]*)"?\s*\[(.*)\];?\s*$')
@@ -115,6 +153,12 @@ def model_graph(prog, entry):
                     sub = []
                     region(it["f"], sub, acc_loads, order)
                     acc_kept.extend((p, fn_, "class") for (p, fn_, _) in sub)
+                elif g.get("phelper") and str(it.get("rtarg", "1"))[:1] in "rxa" and str(it.get("rtarg"))[:1].isalpha():
+                    # a plain helper called with a local: a call with a run-time argument, the kept nodes reached
+                    # below it carry its call-order dependence on the earlier nodes of this body
+                    sub = []
+                    region(it["f"], sub, acc_loads, order)
+                    acc_kept.extend((p, fn_, rt_ or True) for (p, fn_, rt_) in sub)
                 else:
                     region(it["f"], acc_kept, acc_loads, order)
             elif t == "load":
